@@ -9,6 +9,12 @@ def T(quick, thorough, **kw):
     d.update(kw)
     return d
 
+def FUZZ(seconds, **kw):
+    """Native Go fuzzing campaign on a rapid.MakeFuzz target: thorough tier only, bounded by -fuzztime."""
+    d = {"quick": None, "thorough": seconds, "kind": "fuzz"}
+    d.update(kw)
+    return d
+
 def LIST(**kw):
     d = {"quick": 1, "thorough": 1, "kind": "list"}
     d.update(kw)
